@@ -116,6 +116,29 @@ func (e *Env) SetMarker(rel string, on bool) {
 	}
 }
 
+// checkHolds: would this output check pass now? An exit-status check passes iff its marker file
+// exists; an expected_output check prints the marker's content, which must equal the expectation
+// (surrounding white space aside): more lines, a longer word or nothing at all do not.
+func (e *Env) checkHolds(c spec.Check) bool {
+	b, err := os.ReadFile(filepath.Join(e.WS, filepath.FromSlash(c.Marker)))
+	if err != nil {
+		return false
+	}
+	if c.Expected == "" {
+		return true
+	}
+	return strings.TrimSpace(string(b)) == c.Expected
+}
+
+// SpoilMarker leaves the marker file in place with a content that an expected_output check must
+// not accept.
+func (e *Env) SpoilMarker(rel, content string) {
+	p := filepath.Join(e.WS, filepath.FromSlash(rel))
+	_ = os.MkdirAll(filepath.Dir(p), 0755)
+	_ = os.WriteFile(p, []byte(content), 0644)
+	e.Markers[rel] = true
+}
+
 func (e *Env) markerOn(rel string) bool {
 	_, err := os.Stat(filepath.Join(e.WS, filepath.FromSlash(rel)))
 	return err == nil
